@@ -33,7 +33,8 @@ class C02(Scenario):
                    "variance within the run-derived tolerance", "in the awkward regime the model is not consulted: only "
                    "order-independence (sums within tolerance) and the no-op rule for non-positive weights are demanded"]
     expected_faults = ["reorder", "delay"]
-    expected_probes = ["nonpositive_weight_delivery", "edge_value_delivery", "nonfinite_delivery", "none_category_delivery"]
+    expected_probes = ["nonpositive_weight_delivery", "edge_value_delivery", "nonfinite_delivery", "none_category_delivery", "empty_tree_via_zero", "empty_tree_via_iadd_empty",
+                       "empty_tree_via_pickle"]
 
     def generate(self, rng, tier, profile):
         big = tier == "thorough"
@@ -53,7 +54,47 @@ class C02(Scenario):
         while len(sch):
             t, _, actor, i = sch.pop()
             steps.append({"op": "deliver", "to": int(actor[1]), "rec": i, "w": specmod.enc_float(ws[i]), "actor": actor, "t": t})
-        return {"spec": sp, "records": [specmod.enc_record(r) for r in recs], "steps": steps, "regime": profile}
+        # the second replica's empty tree is not always fresh from the constructor: any empty tree must do
+        origin = rng.fork("knobs").pick(["ctor", "ctor", "zero", "copy", "pickle", "iadd-empty", "add-empty", "zero-of-sum"])
+        return {"spec": sp, "records": [specmod.enc_record(r) for r in recs], "steps": steps, "regime": profile, "origin": origin}
+
+    def _empty_via(self, w, h, origin):
+        """an empty tree of the same specification that did not come straight from the constructor"""
+        import pickle
+
+        def filled():
+            o = w.build(0)
+            if not o.ok:
+                return None
+            for rec in w.records[:3]:
+                if not call(o.value.fill, rec, 1.0).ok:
+                    return None
+            return o.value
+
+        def mk():
+            if origin == "zero":
+                f = filled()
+                return f.zero() if f is not None else h
+            if origin == "copy":
+                return h.copy()
+            if origin == "pickle":
+                return pickle.loads(pickle.dumps(h))
+            if origin == "add-empty":
+                return h + w.build(0).value
+            if origin == "zero-of-sum":
+                f, g = filled(), filled()
+                return (f + g).zero() if f is not None and g is not None else h
+            x = h
+            x += w.build(0).value
+            return x
+
+        o = call(mk)
+        if not o.ok or o.value is None:
+            return h  # not this property's business (C01 / C07 / C11 look at these operations)
+        e = call(lambda: (observe.observe(o.value), observe.observe(h)))
+        if not e.ok or e.value[0] != e.value[1]:
+            return h
+        return o.value
 
     def run(self, case, w, R):
         sp = case["spec"]
@@ -67,8 +108,13 @@ class C02(Scenario):
             o = w.build(0)
             if not o.ok:
                 raise self.violation(exc_site(o.exc)[0], "construct", "exception:%s" % type(o.exc).__name__, o.describe(), 0)
-            reps[k] = o.value
-            w.put(k, o.value)
+            h = o.value
+            origin = case.get("origin", "ctor") if k == 2 else "ctor"
+            if origin != "ctor":
+                h = self._empty_via(w, h, origin)
+                w.bump("probe_empty_tree_via_" + origin.replace("-", "_"))
+            reps[k] = h
+            w.put(k, h)
         pos = 0
         special = 0
         units = 0
